@@ -261,7 +261,40 @@ fn smith_text(bytes: &[u8]) -> String {
 pub fn gen_input(bytes: &[u8]) -> Input {
     let mut c = Choices::new(bytes);
     let opts = gschema::Opts { max_types: 4, ..Default::default() };
-    match c.weighted(&[10, 10, 8, 6, 10, 8, 8, 8, 16, 10, 6]) {
+    match c.weighted(&[10, 10, 8, 6, 10, 8, 8, 8, 16, 10, 6, 8]) {
+        11 => {
+            // several diagnostics at ONE source position whose relative order comes out of grouping by
+            // type: a response key selected on an abstract parent that conflicts with the same key in
+            // inline fragments on k different object types (field merging groups selections by concrete
+            // parent type), optionally one level deeper
+            let k = 2 + c.choose(7);
+            const NAMES: [&str; 9] = ["Ant", "Bee", "Cat", "Dog", "Eel", "Fox", "Gnu", "Hen", "Ibis"];
+            let mut order: Vec<usize> = (0..NAMES.len()).collect();
+            for i in 0..k {
+                let j = i + c.choose(NAMES.len() - i);
+                order.swap(i, j);
+            }
+            let mut sdl = String::from("type Query { node: Node nodes: [Node] }\ninterface Node { name: String sub: Node }\n");
+            for &i in &order[..k] {
+                sdl.push_str(&format!("type {} implements Node {{ name: String sub: Node f{}: String g{}(a: Int): Int }}\n", NAMES[i], i, i));
+            }
+            let mut sel = String::new();
+            let args = c.coin();
+            for &i in &order[..k] {
+                if args {
+                    sel.push_str(&format!("... on {} {{ x: g{}(a: {}) }} ", NAMES[i], i, i));
+                } else {
+                    sel.push_str(&format!("... on {} {{ x: f{} }} ", NAMES[i], i));
+                }
+            }
+            sel.push_str("x: name");
+            let text = match c.choose(3) {
+                0 => format!("{{ node {{ {sel} }} }}"),
+                1 => format!("{{ nodes {{ sub {{ {sel} }} }} }}"),
+                _ => format!("query Q {{ node {{ ...F }} }} fragment F on Node {{ {sel} }}"),
+            };
+            Input { kind: "merge-conflicts-across-types", text, against: Some(sdl), smith: None }
+        }
         8 => {
             // C17's pairs: an operation (usually with rule mutations: merge conflicts across inline
             // fragments on several object types, bad variables, ...) against its schema
